@@ -52,6 +52,6 @@ def main():
             out[name] = rec
             print(name, "tests:", rec["tests"], "| demo clean/mut:", rec["demo_clean_rc"], rec["demo_mutant_rc"], "| quick rc:", rec["quick_rc"], "| thorough rc:", rec.get("thorough_rc"), flush=True)
             print("   ", rec["quick_out"].replace("\n", "\n    ")[:700])
-    json.dump(out, open(WT_ROOT + "/eval_%s.json" % "_".join(sys.argv[1:])[:60].replace(":", ""), "w"), indent=1)
+    json.dump(out, open(WT_ROOT + "/eval%s_%%s.json" % os.environ.get("OUT_TAG", "") % "_".join(sys.argv[1:])[:60].replace(":", ""), "w"), indent=1)
 
 main()
